@@ -113,13 +113,20 @@ class _AtView:
         return tainted_at(self.f, name, self.at, self.depth + 1)
 
 
-def in_raw_filter(f, n):
-    """Is n inside an `if (raw_filter_text_matches(..))` / `{=format}` raw-source branch?"""
+def in_raw_filter(f, n, depth=0):
+    """Is n inside an `if (raw_filter_text_matches(..))` / `{=format}` raw-source branch - in f itself, or (f a static helper
+    the branch body was extracted into) at every call site of f in its unit?"""
     for a in f.ancestors(n):
         if a["k"] == "IfStmt":
             for x in walk(a["c"][0]):
                 if x["k"] == "CallExpr" and x.get("callee") in ("raw_filter_text_matches", "raw_filter_matches"):
                     return True
+    if f.static and depth < 2:
+        sites = [(g, c) for g in f.unit.funcs.values() if g is not f for c in g.calls(f.name)]
+        # its address must not be taken either (a call through a pointer would not be seen)
+        refs = sum(1 for g in f.unit.funcs.values() for x in g.walk() if x["k"] == "DeclRefExpr" and x.get("n") == f.name)
+        if sites and refs == len(sites) and all(in_raw_filter(g, c, depth + 1) for g, c in sites):
+            return True
     return False
 
 
